@@ -876,6 +876,16 @@ pub fn families(tier: Tier, _variant: &str) -> Vec<Family> {
         v.push(Family::of_vec("block-edge-sweep", crate::props::lazy::block_edge_docs(if q { 70 } else { 135 }), |d, ctx| check_views(ctx, d)));
     }
     v.push(Family::of_vec("number-shapes+spaced-empties", crate::props::lazy::shape_docs(), |d, ctx| check_views(ctx, d)));
+    {
+        let n = if q { 3 } else { 4 };
+        v.push(Family::of_vec(&format!("all-escapes-docs<={n}nodes"), crate::props::lazy::all_escapes_gen().docs(n), |d, ctx| check_views(ctx, d.as_bytes())));
+        v.push(Family::of_vec("range-edge-numbers", gen::range_edge_numbers(), |d, ctx| {
+            if refjson::parse_doc(d.as_bytes(), RMode::Decode).is_ok() {
+                check_views(ctx, d.as_bytes());
+                check_views(ctx, format!("[{d}]").as_bytes());
+            }
+        }));
+    }
     // part B
     {
         let all = ops();
